@@ -309,6 +309,51 @@ def nesting_cases(depths):
 # ------------------------------------------------------------------------------------------------
 
 
+def scaling_families():
+    """Inputs of growing size with the same shape: (name, builder(n), sizes)."""
+    return [
+        ("components", lambda n: minimal_env(comps=[[b"M", cb.enc(i)] for i in range(n)]), (1500, 6000, 24000)),
+        ("conditions", lambda n: minimal_env(seq_bytes=cb.enc([x for _ in range(n) for x in (3, 15)])), (1500, 6000, 24000)),
+        ("parameter-blocks", lambda n: minimal_env(seq_bytes=cb.enc([x for _ in range(n) for x in (20, cb.Pairs([(21, "u" * 10)]))])), (1500, 6000, 24000)),
+        ("integrated-payloads", lambda n: minimal_env(extra_env=[(f"#p{i}", b"\x00\x01") for i in range(n)]), (1600, 6400, 25600)),
+        ("try-each-branches", lambda n: minimal_env(seq_bytes=cb.enc([15, [cb.enc([14, 0]) for _ in range(n)]])), (1500, 6000, 24000)),
+        ("one-big-payload", lambda n: minimal_env(extra_env=[("#p", bytes(n))]), (10**5, 4 * 10**5, 16 * 10**5)),
+    ]
+
+
+def measure(data):
+    f, allowed = target()
+    t0 = time.process_time()
+    signal.signal(signal.SIGALRM, _on_alarm)
+    signal.alarm(120)
+    try:
+        try:
+            f(data)
+        except allowed:
+            pass
+        except _Alarm:
+            return 120.0
+    finally:
+        signal.alarm(0)
+    return time.process_time() - t0
+
+
+def scaling_case(name, build_fn, sizes, acc, ctx):
+    """Time must grow about linearly with the input: t(16n)/t(4n) of a quadratic parser is ~16, of a linear one ~4."""
+    datas = [build_fn(n) for n in sizes]
+    ts = [measure(d) for d in datas]
+    ratio = ts[2] / max(ts[1], 1e-3)
+    grow = len(datas[2]) / len(datas[1])
+    acc.case(nt_key=("scaling", name), classes=["scaling", f"scaling:{name}"], sample={"scaling": name, "bytes": [len(d) for d in datas], "cpu_s": [round(t, 3) for t in ts]}, sample_key=f"scaling/{name}")
+    if ts[2] > 2.0 and ratio > 2.6 * grow:
+        # confirm: repeat the two larger measurements (same process, warmed up) and require the excess again
+        t1b, t2b = measure(datas[1]), measure(datas[2])
+        if t2b > 2.0 and t2b / max(t1b, 1e-3) > 2.6 * grow:
+            raise Violation(f"{name}: parsing {len(datas[1])} bytes takes {ts[1]:.2f}/{t1b:.2f} s CPU, {len(datas[2])} bytes ({grow:.1f}x) takes {ts[2]:.2f}/{t2b:.2f} s ({ratio:.1f}x): "
+                            "time is not proportional to the input size", "about linear growth", bucket=f"scaling:{name}")
+        acc.note("inconclusive_resource")
+
+
 def make_seeds(ctx, n, base):
     """Seed envelopes: grammar descriptions created by the tool (pure generation, fixed by the seed)."""
     from hypothesis import HealthCheck, Phase, given, seed, settings
@@ -316,23 +361,23 @@ def make_seeds(ctx, n, base):
     descs = []
 
     @seed(base)
-    @settings(max_examples=n * 3, database=None, deadline=None, suppress_health_check=list(HealthCheck), phases=[Phase.generate])
+    @settings(max_examples=n * 3 + 12, database=None, deadline=None, suppress_health_check=list(HealthCheck), phases=[Phase.generate])
     @given(G.envelope_s(depth=1, small=True, risky=True))
     def collect(d):
         descs.append(d)
 
     collect()
-    out = []
+    created = []
     descs.sort(key=lambda d: -len(json.dumps(d)))
     for d in descs:
         try:
-            b = sut.create_mem(d)
+            created.append(sut.create_mem(d))
         except Exception:
             continue
-        if 200 < len(b) < 2500:
-            out.append(b)
-        if len(out) >= n:
-            break
+    # prefer grammar-rich envelopes of a size that keeps the complete mutation sweep affordable, fall back to whatever exists
+    out = [b for b in created if 200 < len(b) < 1600][:n]
+    if len(out) < n:
+        out += [b for b in sorted(created, key=len) if b not in out and len(b) < 6000][: n - len(out)]
     if not out:
         raise boot.HarnessError("no seed envelopes could be created")
     return out
@@ -343,6 +388,7 @@ def plan(ctx):
     specs = [{"kind": "mutate", "i": i, "seed_index": i, "guard_off": i == 0} for i in range(nseeds)]
     specs.append({"kind": "truncate", "n": 3 if not ctx.thorough else 40})
     specs.append({"kind": "nesting"})
+    specs += [{"kind": "scaling", "family": i} for i in range(len(scaling_families()))]
     specs += [{"kind": "bytes", "i": i, "n": 1500 if not ctx.thorough else 40000} for i in range(2 if not ctx.thorough else 8)]
     nfuzz = 2 if not ctx.thorough else 14
     for i in range(nfuzz):
@@ -386,12 +432,14 @@ def run_shard(ctx, spec):
         seed_b = seeds[min(spec["seed_index"], len(seeds) - 1)]
         tree = expand(cb.loads(seed_b))
         n = 0
+        t_start = time.time()
+        cap = None if ctx.thorough else 75  # quick tier: wall cap per seed (the enumeration is then reported as incomplete)
         for data, path, mut, lenchg in mutants(tree):
             if spec.get("guard_off") and n % 40:
                 n += 1
                 continue  # with call logging on every parse is ~10x slower: every 40th mutant
             n += 1
-            if ctx.expired():
+            if ctx.expired() or (cap and time.time() - t_start > (cap if not spec.get("guard_off") else 40)):
                 acc.info["mutation_exhaustive"] = False
                 break
             wf = lenchg or wellformed(data)
@@ -410,6 +458,12 @@ def run_shard(ctx, spec):
         depths += [12, 16, 20, 24, 30, 40]
         for data, name in nesting_cases(sorted(set(depths))):
             _do(acc, ctx, "nesting", data, ("nesting", name), ["nesting", f"nest:{name.split('^')[0]}"], {"nesting": name})
+    elif kind == "scaling":
+        name, fn, sizes = scaling_families()[spec["family"]]
+        try:
+            scaling_case(name, fn, sizes, acc, ctx)
+        except Violation as v:
+            acc.fail("scaling", {"family": name}, v.observed, v.expected, bucket=v.bucket)
     elif kind == "bytes":
         from hypothesis import strategies as st
 
@@ -510,6 +564,16 @@ def run_atheris(ctx, acc, spec):
 def replay(ctx, check, case):
     _limit_memory()
     acc = Acc()
+    if "family" in case:
+        for name, fn, sizes in scaling_families():
+            if name == case["family"]:
+                if boot.guard_state() is False:
+                    sizes = tuple(x // 4 for x in sizes)  # call logging on: ~10x slower per node, a quarter of the size shows the same growth
+                try:
+                    scaling_case(name, fn, sizes, acc, ctx)
+                except Violation as v:
+                    return [f"{v.observed} (expected {v.expected})"]
+        return []
     data = bytes.fromhex(case["input"]) if "input" in case else None
     if data is None:
         return []
@@ -524,7 +588,7 @@ def finalize(ctx, m, ev):
     c = m["counters"]
     ev["coverage"]["mutation_enumeration_complete_per_seed"] = bool(m["info"].get("mutation_exhaustive"))
     ev["coverage"]["atheris"] = m["info"].get("atheris", "not run")
-    for n in ["mutate", "truncate", "nesting", "bytes", "well-formed", "outcome:ok", "outcome:rejected", "mut:replace", "mut:delete", "mut:duplicate", "mut:swap", "nest:dependency-envelopes"]:
+    for n in ["mutate", "truncate", "nesting", "bytes", "well-formed", "outcome:ok", "outcome:rejected", "mut:replace", "mut:delete", "mut:duplicate", "mut:swap", "nest:dependency-envelopes", "scaling"]:
         if not c.get(n):
             raise boot.HarnessError(f"interesting class {n} is empty")
     if str(m["info"].get("atheris", "")).startswith("failed"):
